@@ -108,14 +108,15 @@ def _check_sliced(c, e):
     if r == "unknown":
         # same question with table look-ups as multiplexers and a fresh solver (see demux)
         try:
-            s2 = z3.Solver()
-            s2.set("timeout", 30000)
-            for lit in c.lits:
-                s2.add(demux(lit[0]))
-            s2.add(demux(e))
-            r2 = str(s2.check())
-            if r2 != "unknown":
-                return r2
+            terms = [lit[0] for lit in c.lits] + [e]
+            if any(_count_table_selects(t, 1) for t in terms):        # nothing to rewrite otherwise: the answer would be the same
+                s2 = z3.Solver()
+                s2.set("timeout", 30000)
+                for t in terms:
+                    s2.add(demux(t) if _count_table_selects(t, 1) else t)
+                r2 = str(s2.check())
+                if r2 != "unknown":
+                    return r2
         except z3.Z3Exception:
             pass
     return r
@@ -457,8 +458,8 @@ def check(*assertions, timeout_ms=60000, want_model=True, soft=False):
     t0 = time.time()
     # few table look-ups: decide the multiplexer form directly (array theory is what stalls); many: keep the compact
     # array form and fall back to multiplexers only when that comes back unknown
-    few = sum(_count_table_selects(e, 17) for e in es) <= 16
-    forms = (True, False) if few else (False, True)
+    nsel = sum(_count_table_selects(e, 17) for e in es)
+    forms = (False,) if nsel == 0 else (True, False) if nsel <= 16 else (False, True)
     r = "unknown"
     s = None
     for mux in forms:
